@@ -177,6 +177,15 @@ func Generate(r *rand.Rand, hosts []string, o Opts) *Generated {
 				p.Body += fmt.Sprintf(` <a href="%s">l%d</a>`, l, i+1)
 				p.BodyLinks = append(p.BodyLinks, l)
 			}
+			// one of the links is spelled like a handle of an actor that exists: behind a link it is just a (useless) address
+			for _, a := range g.Actors {
+				if a.Handle != "" && r.Intn(2) == 0 {
+					l := []string{"@", "!"}[r.Intn(2)] + a.Handle + "@" + a.Host
+					p.Body += fmt.Sprintf(` <a href="%s">handle</a>`, l)
+					p.BodyLinks = append(p.BodyLinks, l)
+					break
+				}
+			}
 			p.Body += "</p>"
 		}
 		if r.Intn(3) == 0 {
